@@ -3,6 +3,7 @@ package c05
 import (
 	"fmt"
 	"math/big"
+	"os" // DEVTMP
 	"sort"
 	"strings"
 
@@ -99,6 +100,14 @@ var suites = []suite{
 	newEnv("bls12381-g2", bls12381.NewG2()),
 }
 
+// groupWeights: the generic code paths are the same for every group; the slow pure-Go pairing
+// groups are drawn less often so that the case budget goes into structures and alterations.
+var groupWeights = []string{
+	"k256", "k256", "k256", "k256", "p256", "p256", "p256", "ed25519-prime", "ed25519-prime", "ed25519-prime",
+	"pallas", "pallas", "pallas", "bls12381-g1", "bls12381-g1", "bls12381-g2",
+}
+var slowGroups = map[string]bool{"bls12381-g1": true, "bls12381-g2": true}
+
 func suiteByName(nm string) suite {
 	for _, s := range suites {
 		if s.name() == nm {
@@ -110,15 +119,19 @@ func suiteByName(nm string) suite {
 
 // drawCfg draws the group and the configuration of the dealings.
 func drawCfg(t *rapid.T) (*cfg, suite) {
-	names := make([]string, len(suites))
-	for i, s := range suites {
-		names[i] = s.name()
-	}
-	s := suiteByName(rapid.SampledFrom(names).Draw(t, "group"))
+	s := suiteByName(rapid.SampledFrom(groupWeights).Draw(t, "group"))
+	if g := os.Getenv("C05_GROUP"); g != "" { // DEVTMP
+		s = suiteByName(g) // DEVTMP
+	} // DEVTMP
+	slow := slowGroups[s.name()]
 	c := &cfg{}
 	c.scheme = rapid.SampledFrom([]string{schemeFeldman, schemePedersen}).Draw(t, "scheme")
+	maxN := 5
+	if slow && !vlib.Thorough() {
+		maxN = 4 // pure-Go BLS12-381 scalar multiplications cost milliseconds; a Verify does rows x D of them
+	}
 	for {
-		c.pol = policy.Draw(t, policy.Opts{MaxN: 5})
+		c.pol = policy.Draw(t, policy.Opts{MaxN: maxN})
 		if everyHolderHasRows(c.pol) {
 			break
 		}
@@ -135,6 +148,9 @@ func drawCfg(t *rapid.T) (*cfg, suite) {
 	}
 	c.seed = rapid.Uint64().Draw(t, "dealerSeed")
 	c.k = rapid.SampledFrom([]int{1, 1, 2, 2, 3, 4}).Draw(t, "k")
+	if slow && c.k > 2 && !vlib.Thorough() {
+		c.k = 2
+	}
 	if c.k >= 2 {
 		c.zeroLast = rapid.IntRange(0, 7).Draw(t, "zeroLast") == 0
 	}
@@ -739,7 +755,7 @@ func (w *world[E, S]) present(t tb, what string, c cand, vv *vvec[E, S], want bo
 			}
 			return "unbuildable"
 		}
-		w.verifyFeldman(t, sh, vv, want, fail)
+		w.verifyFeldman(t, sh, vv, want, true, fail)
 		return ""
 	}
 	var ks, kb *kw.Share[S]
@@ -770,12 +786,15 @@ func (w *world[E, S]) present(t tb, what string, c cand, vv *vvec[E, S], want bo
 	return ""
 }
 
-func (w *world[E, S]) verifyFeldman(t tb, sh *kw.Share[S], vv *vvec[E, S], want bool, fail func(string, error)) {
+func (w *world[E, S]) verifyFeldman(t tb, sh *kw.Share[S], vv *vvec[E, S], want, shardToo bool, fail func(string, error)) {
 	t.Helper()
 	var err error
 	vlib.NoPanic(t, "feldman.Scheme.Verify", func() { err = w.fs.Verify(sh, vv) })
 	if (err == nil) != want {
 		fail("feldman.Scheme.Verify", err)
+	}
+	if !shardToo {
+		return
 	}
 	var shard *mpc.BaseShard[E, S]
 	vlib.NoPanic(t, "mpc.NewBaseShard", func() { shard, err = mpc.NewBaseShard(sh, vv, w.msp) })
@@ -799,6 +818,13 @@ func (w *world[E, S]) verifyPedersen(t tb, ps *pedersen.Share[S], vv *vvec[E, S]
 // presentLib runs the verifiers on the library's own share object of holder h in dl.
 func (w *world[E, S]) presentLib(t tb, what string, dl *dealing[E, S], h int, vv *vvec[E, S], want bool) {
 	t.Helper()
+	w.presentLibWith(t, what, dl, h, vv, want, true)
+}
+
+// presentLibWith: shard=false runs only the scheme's Verify (not mpc.NewBaseShard, which
+// recomputes every holder's public share).
+func (w *world[E, S]) presentLibWith(t tb, what string, dl *dealing[E, S], h int, vv *vvec[E, S], want, shard bool) {
+	t.Helper()
 	fail := func(verifier string, err error) {
 		t.Helper()
 		verdict := "ACCEPTED (nil error)"
@@ -808,7 +834,7 @@ func (w *world[E, S]) presentLib(t tb, what string, dl *dealing[E, S], h int, vv
 		t.Fatalf("%s: %s %s; expected accept=%v\n holder %d (ID %d, rows %v) share of %s\n group=%s %s", what, verifier, verdict, want, h, w.c.ids[h], w.holderRows[h], dl.label, w.e.nm, w.c)
 	}
 	if w.c.scheme == schemeFeldman {
-		w.verifyFeldman(t, dl.fshares[w.id(h)], vv, want, fail)
+		w.verifyFeldman(t, dl.fshares[w.id(h)], vv, want, shard, fail)
 	} else {
 		w.verifyPedersen(t, dl.pshares[w.id(h)], vv, want, fail)
 	}
@@ -820,7 +846,7 @@ func (w *world[E, S]) baseline(t tb) {
 	t.Helper()
 	for _, dl := range w.targets() {
 		for h := range w.holderRows {
-			w.presentLib(t, "unaltered share against its own vector ("+dl.label+")", dl, h, dl.vv, true)
+			w.presentLibWith(t, "unaltered share against its own vector ("+dl.label+")", dl, h, dl.vv, true, false)
 		}
 	}
 	if w.comb != nil {
